@@ -6,6 +6,7 @@ import (
 	"errors"
 	"fmt"
 	"io"
+	"os"
 	"strings"
 	"testing"
 	"time"
@@ -32,11 +33,12 @@ type faultReader struct {
 	pos        int
 	chunk      int
 	shortFinal bool
+	err        error
 }
 
 func (r *faultReader) Read(p []byte) (int, error) {
 	if r.pos >= r.k {
-		return 0, errR
+		return 0, r.err
 	}
 	n := r.k - r.pos
 	if n > len(p) {
@@ -48,7 +50,7 @@ func (r *faultReader) Read(p []byte) (int, error) {
 	copy(p, r.data[r.pos:r.pos+n])
 	r.pos += n
 	if r.pos >= r.k && r.shortFinal {
-		return n, errR
+		return n, r.err
 	}
 	return n, nil
 }
@@ -76,6 +78,21 @@ type Case struct {
 	ShortFinal bool   `json:"short_final"`
 	KW         int    `json:"k_writer"`
 	Chunk      int    `json:"chunk"`
+	ErrKind    string `json:"err_kind,omitempty"` // identity of the reader's error: "" (own sentinel), unexpected-eof, closed-pipe, deadline
+}
+
+// readerErr: the error the failing reader returns. Errors that real readers produce (a truncated gzip stream, a closed
+// pipe, a deadline) must surface like any other; only io.EOF itself means the end of the input.
+func (c Case) readerErr() error {
+	switch c.ErrKind {
+	case "unexpected-eof":
+		return io.ErrUnexpectedEOF
+	case "closed-pipe":
+		return io.ErrClosedPipe
+	case "deadline":
+		return os.ErrDeadlineExceeded
+	}
+	return errR
 }
 
 const rule = "for each input (repository test-table snippets and compositions of them, all six media types) the fault-free write count W is measured, then EVERY fault position is run: reader fails after k bytes for k=0..len (with the error arriving with and after the last data), writer fails from its k-th Write for k=1..W (and k=W+1 must succeed), both together, and the same through the Writer and Reader wrappers; positions are exhaustive for inputs <= 512 bytes and stratified (first/last 48, every 5th) above; evaluations = fault positions executed; distinct_nontrivial counts DISTINCT INPUTS (by hash) for which at least one fault strictly inside the stream (0<k<len for readers, 1<k<=W for writers) was executed - a conservative count, the number of such positions is in in_stream_fault_positions_run"
@@ -99,7 +116,7 @@ func run(c Case) (err error) {
 	case "reader", "writer", "both":
 		var r io.Reader = bytes.NewReader(append([]byte{}, in...))
 		if c.Mode != "writer" {
-			r = &faultReader{data: in, k: c.KR, chunk: c.Chunk, shortFinal: c.ShortFinal}
+			r = &faultReader{data: in, k: c.KR, chunk: c.Chunk, shortFinal: c.ShortFinal, err: c.readerErr()}
 		}
 		w := &faultWriter{}
 		if c.Mode != "reader" {
@@ -108,15 +125,15 @@ func run(c Case) (err error) {
 		e := registry.Minify(mt, w, r)
 		switch c.Mode {
 		case "reader":
-			if !isErr(e, errR) {
-				return fmt.Errorf("reader failed after %d of %d bytes but Minify returned %v (wrote %d bytes)", c.KR, len(in), e, w.buf.Len())
+			if !isErr(e, c.readerErr()) {
+				return fmt.Errorf("reader failed with %q after %d of %d bytes but Minify returned %v (wrote %d bytes)", c.readerErr(), c.KR, len(in), e, w.buf.Len())
 			}
 		case "writer":
 			if !isErr(e, errW) {
 				return fmt.Errorf("writer failed from write #%d but Minify returned %v", c.KW, e)
 			}
 		case "both":
-			if !isErr(e, errR) && !isErr(e, errW) {
+			if !isErr(e, c.readerErr()) && !isErr(e, errW) {
 				return fmt.Errorf("reader failed after %d bytes and writer from write #%d but Minify returned %v", c.KR, c.KW, e)
 			}
 		}
@@ -146,7 +163,7 @@ func run(c Case) (err error) {
 			return fmt.Errorf("second Close returned %v", e2)
 		}
 	case "via-reader":
-		fr := &faultReader{data: in, k: c.KR, chunk: c.Chunk, shortFinal: c.ShortFinal}
+		fr := &faultReader{data: in, k: c.KR, chunk: c.Chunk, shortFinal: c.ShortFinal, err: c.readerErr()}
 		mr := registry.Reader(mt, fr)
 		buf := make([]byte, 97)
 		var got bytes.Buffer
@@ -157,7 +174,7 @@ func run(c Case) (err error) {
 				return fmt.Errorf("source failed after %d of %d bytes but the minifying reader ended with io.EOF after %d output bytes", c.KR, len(in), got.Len())
 			}
 			if e != nil {
-				if !isErr(e, errR) {
+				if !isErr(e, c.readerErr()) {
 					return fmt.Errorf("minifying reader returned %v, want the source's error", e)
 				}
 				break
@@ -184,6 +201,8 @@ func faultFree(kind string, in []byte) (W int, out []byte, err error) {
 	}
 	return w.calls, w.buf.Bytes(), nil
 }
+
+var errKinds = []string{"", "", "unexpected-eof", "closed-pipe", "deadline"}
 
 func positions(n int, exhaustive bool) []int {
 	var ks []int
@@ -231,12 +250,12 @@ func enumerate(t hx.TB, kind, input string) (int, error) {
 			if sf && k == 0 {
 				continue
 			}
-			if err := try(Case{Kind: kind, Input: input, Mode: "reader", KR: k, ShortFinal: sf, Chunk: 1 + k%7}, k > 0 && k < len(in)); err != nil {
+			if err := try(Case{Kind: kind, Input: input, Mode: "reader", KR: k, ShortFinal: sf, Chunk: 1 + k%7, ErrKind: errKinds[(k+len(in))%len(errKinds)]}, k > 0 && k < len(in)); err != nil {
 				return n, err
 			}
 		}
 		if k%3 == 0 {
-			if err := try(Case{Kind: kind, Input: input, Mode: "via-reader", KR: k, ShortFinal: k%2 == 0 && k > 0, Chunk: 1 + k%11}, k > 0 && k < len(in)); err != nil {
+			if err := try(Case{Kind: kind, Input: input, Mode: "via-reader", KR: k, ShortFinal: k%2 == 0 && k > 0, Chunk: 1 + k%11, ErrKind: errKinds[(k/3+len(in))%len(errKinds)]}, k > 0 && k < len(in)); err != nil {
 				return n, err
 			}
 		}
@@ -274,6 +293,12 @@ func TestCampaignFaults(t *testing.T) {
 		}
 		if len(input) > 6000 {
 			input = input[:6000]
+		}
+		if len(input) > 1 && rapid.IntRange(0, 3).Draw(t, "truncate") == 0 {
+			// a document cut off anywhere (inside a tag, a processing instruction, a string): if it is still accepted, the
+			// writer faults apply to it as to any other input
+			input = input[:rapid.IntRange(1, len(input)-1).Draw(t, "cut")]
+			hx.C.Class("input-truncated")
 		}
 		n, _ := enumerate(t, kind, input)
 		inputs++
